@@ -172,7 +172,8 @@ Definition exec (c : cfg) (se : state * env) (i : instr) : state * env :=
     | ISame d a => let id := hd0 (lookup e a) in (step c s (EAlias id), (d, [id]) :: e)
     | IToNumpy d a =>
       let s1 := step c s (EGetView (hd0 (lookup e a)) 0) in let v := newroot s1 in
-      let s2 := step c s1 (EDerive v) in let w := newroot s2 in
+      (* data.reshape(..).transpose(..): for a wrapped dtype NumPy collapses the base past `data` *)
+      let s2 := step c s1 (if c_wrapped c then ECollapse v else EDerive v) in let w := newroot s2 in
       (drop_root c s2 v, (d, [w]) :: e)
     | IArrays d a n drop_first =>
       let '(s1, vs) := get_views c s (hd0 (lookup e a)) n in
